@@ -181,3 +181,119 @@ impl World {
         panic!("node not found in store");
     }
 }
+
+
+// ---------------------------------------------------------------- snapshots (C10 / C11 monitors)
+
+use lightning_signer::channel::ChannelSlot;
+use vls_persist::kvv::KVVStore;
+
+/// every key / version / value of the store, in key order
+pub fn store_dump(p: &MemPersister) -> Vec<(String, u64, String)> {
+    let mut v: Vec<(String, u64, String)> = p
+        .0
+        .get_prefix("")
+        .expect("get_prefix")
+        .map(|kvv| {
+            let (k, (ver, val)) = kvv.into_inner();
+            (k, ver, String::from_utf8_lossy(&val).to_string())
+        })
+        .collect();
+    v.sort();
+    v
+}
+
+/// The state that C10 / C11 enumerate, as comparable strings keyed by component:
+/// per channel the enforcement state and the monitor state, the tracker's tip / height /
+/// remembered headers, the allowlist, the approved invoices, the high-water mark and the two
+/// velocity controls.
+pub fn fingerprint(node: &Node) -> Vec<(String, String)> {
+    let mut out = vec![];
+    {
+        let st = node.get_state();
+        let mut invs: Vec<String> = st
+            .invoices
+            .iter()
+            .map(|(h, p)| format!("{}:{}:{}", hex::encode(h.0), p.amount_msat, hex::encode(p.invoice_hash)))
+            .collect();
+        invs.sort();
+        out.push(("invoices".to_string(), invs.join(",")));
+        let mut issued: Vec<String> =
+            st.issued_invoices.iter().map(|(h, p)| format!("{}:{}", hex::encode(h.0), p.amount_msat)).collect();
+        issued.sort();
+        out.push(("issued_invoices".to_string(), issued.join(",")));
+        out.push(("hwm".to_string(), st.dbid_high_water_mark.to_string()));
+        out.push(("velocity".to_string(), format!("{:?}", st.velocity_control)));
+        out.push(("fee_velocity".to_string(), format!("{:?}", st.fee_velocity_control)));
+    }
+    let mut al = node.allowlist().unwrap_or_default();
+    al.sort();
+    out.push(("allowlist".to_string(), al.join(",")));
+    {
+        let tr = node.get_tracker();
+        out.push(("tracker".to_string(), format!("tip={} height={} headers={}", tr.tip().0.block_hash(), tr.height(), tr.headers.len())));
+    }
+    let chans: Vec<_> = { node.get_channels().iter().map(|(k, v)| (k.clone(), v.clone())).collect() };
+    for (id, slot) in chans {
+        let g = slot.lock().unwrap();
+        match &*g {
+            ChannelSlot::Stub(s) => out.push((format!("chan:{}", id), format!("stub@{}", s.blockheight))),
+            ChannelSlot::Ready(c) => {
+                out.push((format!("chan:{}", id), format!("{:?}", c.enforcement_state)));
+                out.push((
+                    format!("monitor:{}", id),
+                    format!(
+                        "forget_seen={} done={} chain_state={:?} funding_outpoint={:?} diag={}",
+                        c.monitor.forget_seen(),
+                        c.monitor.is_done(),
+                        c.monitor.as_chain_state(),
+                        c.monitor.funding_outpoint(),
+                        c.monitor.diagnostic(c.enforcement_state.channel_closed)
+                    ),
+                ));
+            }
+        }
+    }
+    out.sort();
+    out.dedup();
+    out
+}
+
+/// components on which two fingerprints differ
+pub fn fingerprint_diff(a: &[(String, String)], b: &[(String, String)]) -> Vec<String> {
+    let mut d = vec![];
+    let ma: std::collections::BTreeMap<_, _> = a.iter().cloned().collect();
+    let mb: std::collections::BTreeMap<_, _> = b.iter().cloned().collect();
+    for (k, v) in &ma {
+        match mb.get(k) {
+            Some(w) if w == v => {}
+            Some(_) => d.push(format!("{} differs", k)),
+            None => d.push(format!("{} missing after", k)),
+        }
+    }
+    for k in mb.keys() {
+        if !ma.contains_key(k) {
+            d.push(format!("{} appeared", k));
+        }
+    }
+    d
+}
+
+pub fn store_diff(a: &[(String, u64, String)], b: &[(String, u64, String)]) -> Vec<String> {
+    let ma: std::collections::BTreeMap<_, _> = a.iter().map(|(k, v, x)| (k.clone(), (*v, x.clone()))).collect();
+    let mb: std::collections::BTreeMap<_, _> = b.iter().map(|(k, v, x)| (k.clone(), (*v, x.clone()))).collect();
+    let mut d = vec![];
+    for (k, (v, x)) in &ma {
+        match mb.get(k) {
+            Some((w, y)) if w == v && x == y => {}
+            Some((w, y)) => d.push(format!("store key {}: version {} -> {}{}", k, v, w, if x == y { " (same value)" } else { " (value changed)" })),
+            None => d.push(format!("store key {} deleted", k)),
+        }
+    }
+    for k in mb.keys() {
+        if !ma.contains_key(k) {
+            d.push(format!("store key {} created", k));
+        }
+    }
+    d
+}
